@@ -1065,3 +1065,98 @@ func (w *World) guardedBitsAt(b *ssa.BasicBlock) uint64 {
 	}
 	return bits
 }
+
+func init() {
+	register(&Rule{ID: "C11.R5", Min: 2,
+		Text: "the exact location of a root steps onto the root itself: in Sqrt and Cbrt the candidate is moved to its successor (v.Set(&next)) under every outcome of the exact comparison cmpPower(next, n, operand) except 'above' — a comparison that also refuses equality never reaches a root that is exactly representable one unit above the iterate (Cbrt(3195³) at Precision 4 came back 3194, Inexact)",
+		Run:  ruleRootStepOntoEquality})
+}
+
+func ruleRootStepOntoEquality(w *World, r *RuleResult) {
+	for _, name := range []string{"(*Context).Sqrt", "(*Context).Cbrt"} {
+		top := w.fn(name)
+		if top == nil {
+			r.anchorMissing(name)
+			continue
+		}
+		n := 0
+		// top and the helpers it was split into, also those it shares with the other root function
+		var roots []*ssa.Function
+		for _, rn := range []string{"(*Context).Sqrt", "(*Context).Cbrt"} {
+			if g := w.fn(rn); g != nil {
+				roots = append(roots, g)
+			}
+		}
+		joint := w.privateClosureOf(roots)
+		reach := w.reachable([]*ssa.Function{top})
+		var fs []*ssa.Function
+		for _, nm := range w.Names {
+			if g := w.Funcs[nm]; g == top || joint[g] && reach[g] && g != roots[0] && g != roots[len(roots)-1] {
+				fs = append(fs, g)
+			}
+		}
+		for _, f := range fs {
+			for _, set := range w.callsTo(f, "(*Decimal).Set") {
+				if len(set.Common().Args) < 2 {
+					continue
+				}
+				src, dst := basePtr(set.Common().Args[1]), basePtr(set.Common().Args[0])
+				// src is the successor of dst: it was computed as dst plus something
+				succ := false
+				for _, nm := range []string{"(*ErrDecimal).Add", "(*Context).Add"} {
+					for _, add := range w.callsTo(f, nm) {
+						a := add.Common().Args
+						if len(a) == 4 && basePtr(a[1]) == src && (basePtr(a[2]) == dst || basePtr(a[3]) == dst) {
+							succ = true
+						}
+					}
+				}
+				if !succ {
+					continue
+				}
+				// guards of the copy that compare cmpPower(src, …) with 0
+				for _, g := range guardsAt(set.Block()) {
+					bo, ok := g.Cond.(*ssa.BinOp)
+					if !ok {
+						continue
+					}
+					call, isCall := bo.X.(*ssa.Call)
+					k, isK := bo.Y.(*ssa.Const)
+					if !isCall || !isK || ci(k) != 0 || w.calleeName(call) != "cmpPower" || len(call.Common().Args) < 3 || basePtr(call.Common().Args[0]) != src {
+						continue
+					}
+					var atEq bool
+					switch bo.Op {
+					case token.GTR, token.LSS, token.NEQ:
+						atEq = false
+					case token.LEQ, token.GEQ, token.EQL:
+						atEq = true
+					default:
+						continue
+					}
+					// only steps towards larger candidates: refused when the successor is above
+					var above bool // the guard's value when cmpPower > 0
+					switch bo.Op {
+					case token.GTR, token.GEQ, token.NEQ:
+						above = true
+					default:
+						above = false
+					}
+					if above == g.Val {
+						continue // a copy made when the other value is above: not a step-up
+					}
+					n++
+					key := fmt.Sprintf("%s | step onto %s #%d", w.shortName(f), w.exprOf(f, src).String(), n)
+					if atEq == g.Val {
+						r.ok(key, w.instrPos(set), "the successor is taken when "+w.exprOf(f, g.Cond).String()+" is "+fmt.Sprint(g.Val)+": also when its power equals the operand", true)
+					} else {
+						r.bad(key, w.instrPos(set), "the successor is taken only when "+w.exprOf(f, g.Cond).String()+" is "+fmt.Sprint(g.Val)+", which refuses the case where its power equals the operand: an exactly representable root one unit above the iterate is never reached and is reported inexact")
+					}
+				}
+			}
+		}
+		if n == 0 {
+			r.ok(name+" | step onto the successor", w.pos(top.Pos()), "no candidate is moved to a successor under a cmpPower comparison: this shape is not decided", false)
+		}
+	}
+}
